@@ -11,6 +11,7 @@ SCHEMA = "py_gql.schema.schema"
 
 
 def check(prog, run):
+    check_interface_argument_invariance(prog, run, "V10")
     sv = prog.get_class(VAL, "SchemaValidator")
     call = sv.methods["__call__"]
 
@@ -663,3 +664,55 @@ def _walk_no_inner_loops(node):
                 # still yield the header expressions of the inner loop? no: inner loops are separate instances
                 continue
             stack.append(ch)
+
+
+def check_interface_argument_invariance(prog, run, rule_id):
+    """An implementing field takes exactly the argument types the interface field declares."""
+    from .. import boolx
+    import re
+    r = run.rule(rule_id, "SchemaValidator.validate_implementation, the loop over the interface field's arguments decided for (the object field "
+                          "has the argument, the two argument types are equal, the object's type is a subtype of the interface's): a "
+                          "missing argument and an argument of a different type are each reported on every execution, an equal type on "
+                          "none - argument types are invariant (the specification: `must accept the same type`); accepting a subtype "
+                          "(`Int!` for `Int`) lets an implementation reject nulls the interface promises to accept", 6)
+    sv = prog.get_class(VAL, "SchemaValidator")
+    vi = sv.methods.get("validate_implementation")
+    if vi is None:
+        raise AnalysisError("C13.%s: validate_implementation not found" % rule_id)
+    run.looked_at(vi)
+    loops = [n for n in own_nodes(vi.node) if isinstance(n, ast.For) and isinstance(n.iter, ast.Attribute) and n.iter.attr == "arguments"
+             and any(isinstance(x, ast.Compare) or (isinstance(x, ast.Call) and isinstance(x.func, ast.Attribute) and x.func.attr == "is_subtype")
+                     for st in n.body for x in ast.walk(st) if any(isinstance(y, ast.Attribute) and y.attr == "type" for y in ast.walk(x)))]
+    if not loops:
+        raise AnalysisError("C13.%s: the loop comparing interface and object argument types was not found" % rule_id)
+    lp = loops[0]
+    body = boolx.body_function(lp.body)
+    eq = re.compile(r"^\w+\.type == \w+\.type$")
+    sub = re.compile(r"^[\w.]+\.is_subtype\(\w+\.type, \w+\.type\)$")
+    absent = re.compile(r"^\w+ is None$")
+    bad = []
+    for has in (True, False):
+        for equal in (True, False):
+            for subtype in (True, False):
+                if equal and not subtype:
+                    continue
+                def decide(t, has=has, equal=equal, subtype=subtype):
+                    if eq.match(t):
+                        return equal
+                    if sub.match(t):
+                        return subtype
+                    if absent.match(t):
+                        return not has
+                    return None
+                try:
+                    _ev, exits = boolx.walk_under(body, decide)
+                except ValueError as e:
+                    raise AnalysisError("C13.%s: %s" % (rule_id, e))
+                outcomes = {any(isinstance(c.func, ast.Attribute) and c.func.attr == "add_error" for c in env.get(boolx.CALLS, ())) for k, st, env in exits if k != "raise"}
+                want = (not has) or (not equal)
+                r.instance("object field has the argument=%s, types equal=%s, subtype=%s -> error recorded %s" % (has, equal, subtype, sorted(outcomes)))
+                if outcomes != {want}:
+                    bad.append({"has": has, "equal": equal, "subtype": subtype, "error": sorted(outcomes), "expected": want})
+    if bad:
+        run.report(r, "%s:SchemaValidator.validate_implementation:argument-invariance" % VAL, vi.where(lp),
+                   "interface argument types are not compared for equality: %s" % bad[:3], {"rows": bad})
